@@ -329,3 +329,50 @@ def dict_layer(g, chart, level):
         g.witness('priority_other', prio[t] > 5)
     g.prove_all(conds)
     g.sample({'chart': cm.describe(), 'layer': 'dict'})
+
+
+# ------------------------------------------------------------------ CrossHair layer (symbolic str, bug hunting only)
+def post_levels(tier, seed, report):
+    """symbolic unicode strings through the dict layer with CrossHair (E2 of the design).  A counterexample is
+    replayed concretely before it is reported; 'Not confirmed' is inconclusive and reported as such."""
+    import os
+    import re
+    import subprocess
+    import sys
+    from ..runner import ROOT, REPO
+    if os.environ.get('VERIF_C11_CROSSHAIR', '1' if tier == 'thorough' else '0') != '1':
+        report['levels'].append({'level': 'crosshair-str-kernels', 'skipped': 'thorough tier only (VERIF_C11_CROSSHAIR=1 forces it)'})
+        return []
+    exe = os.path.join(os.path.dirname(sys.executable), 'crosshair')
+    t = '60' if tier == 'thorough' else '15'
+    env = dict(os.environ, PYTHONPATH=REPO + os.pathsep + ROOT)
+    try:
+        p = subprocess.run([exe, 'check', '--report_all', '--per_condition_timeout', t, os.path.join(ROOT, 'vf', 'xh_c11.py')],
+                           capture_output=True, text=True, env=env, cwd=ROOT, timeout=400)
+        out = p.stdout + p.stderr
+    except Exception as e:
+        report['errors'].append('crosshair could not be run: %r' % (e,))
+        return []
+    viol = []
+    verdicts = []
+    for line in out.splitlines():
+        m = re.search(r'xh_c11.py:(\d+): (\w+): (.*)$', line)
+        if not m:
+            continue
+        verdicts.append(m.group(3)[:160])
+        mc = re.search(r'when calling (\w+\(.*\))', m.group(3))
+        if m.group(2) == 'error' and mc:
+            viol.append({'label': 'string_fields_survive_round_trip', 'call': mc.group(1)})
+    report['levels'].append({'level': 'crosshair-str-kernels', 'tool': 'crosshair-tool (z3 string theory)', 'per_condition_timeout_s': int(t),
+                             'kernels': ['transition_fields_survive', 'state_code_survives'], 'verdicts': verdicts,
+                             'note': '"Not confirmed" = no counterexample within the timeout: inconclusive, not a pass'})
+    return viol
+
+
+def replay_special(rec):
+    from .. import xh_c11
+    call = rec['call']
+    ok = eval(call, {'transition_fields_survive': xh_c11.transition_fields_survive,
+                     'state_code_survives': xh_c11.state_code_survives})
+    print(call, '->', ok)
+    return not ok
